@@ -663,40 +663,54 @@ def transport_lookup(report, db, cg, M):
                     'read uses connection.file_object as it is at that '
                     'moment, so the cipher wrapper installed by the login '
                     'reaction applies to the very next frame')
-    rn = M.method(M.thread, '_run')
-    g = cfg_of(rn)
+    run_ = M.method(M.thread, '_run')
+    # _run and the helpers it was split into (not units of the confirmed
+    # tree)
+    unknown = pathsum.known_unit_pred()
+    scope, todo = [], [run_]
+    while todo:
+        f = todo.pop()
+        if f in scope:
+            continue
+        scope.append(f)
+        for cs in cg.sites.get(f, []):
+            for m, _, _ in cs.callees:
+                if m.cls is M.thread and unknown(m) and m not in scope:
+                    todo.append(m)
     n = 0
-    for node in g.reachable_nodes():
-        for c in (node.calls() if node.ast is not None else []):
-            if not any(m.name == 'read_packet'
-                       for m, _, _ in cg.callee_funcs(rn, c)):
-                continue
-            n += 1
-            a = c.args[0] if c.args else None
-            fresh = isinstance(a, ast.Attribute) and \
-                a.attr == 'file_object' and M.is_conn_expr(rn, a.value)
-            if not fresh and isinstance(a, ast.Name):
-                # a local is fine when it is (re)loaded from the connection
-                # inside the same loop iteration, after the previous react
-                loads = [x for x in g.reachable_nodes() if isinstance(
-                    x.ast, ast.Assign) and any(
-                        isinstance(t, ast.Name) and t.id == a.id
-                        for t in x.ast.targets)]
-                inner = node.loops[-1] if node.loops else None
-                fresh = bool(loads) and all(
-                    inner is not None and inner in x.loops and isinstance(
-                        x.ast.value, ast.Attribute)
-                    and x.ast.value.attr == 'file_object' for x in loads)
-            if fresh:
-                report.ok(R, 'read_packet(%s, ...) evaluated per read'
-                          % ast.unparse(a))
-            else:
-                report.violation(R, 'transport:stale-stream', rn.path, c,
-                                 rn.qualname, 'read_packet is given %s, '
-                                 'which is not re-read from the connection '
-                                 'for every packet: after the encryption '
-                                 'response the next frames are still read '
-                                 'from the unwrapped stream'
-                                 % (ast.unparse(a) if a is not None
-                                    else 'nothing'))
+    for rn in scope:
+      g = cfg_of(rn)
+      for node in g.reachable_nodes():
+          for c in (node.calls() if node.ast is not None else []):
+              if not any(m.name == 'read_packet'
+                         for m, _, _ in cg.callee_funcs(rn, c)):
+                  continue
+              n += 1
+              a = c.args[0] if c.args else None
+              fresh = isinstance(a, ast.Attribute) and \
+                  a.attr == 'file_object' and M.is_conn_expr(rn, a.value)
+              if not fresh and isinstance(a, ast.Name):
+                  # a local is fine when it is (re)loaded from the connection
+                  # inside the same loop iteration, after the previous react
+                  loads = [x for x in g.reachable_nodes() if isinstance(
+                      x.ast, ast.Assign) and any(
+                          isinstance(t, ast.Name) and t.id == a.id
+                          for t in x.ast.targets)]
+                  inner = node.loops[-1] if node.loops else None
+                  fresh = bool(loads) and all(
+                      inner is not None and inner in x.loops and isinstance(
+                          x.ast.value, ast.Attribute)
+                      and x.ast.value.attr == 'file_object' for x in loads)
+              if fresh:
+                  report.ok(R, 'read_packet(%s, ...) evaluated per read'
+                            % ast.unparse(a))
+              else:
+                  report.violation(R, 'transport:stale-stream', rn.path, c,
+                                   rn.qualname, 'read_packet is given %s, '
+                                   'which is not re-read from the connection '
+                                   'for every packet: after the encryption '
+                                   'response the next frames are still read '
+                                   'from the unwrapped stream'
+                                   % (ast.unparse(a) if a is not None
+                                      else 'nothing'))
     report.floor('read_packet call sites in _run', n, 1)
